@@ -38,6 +38,9 @@ def events():
     temp = bytes.fromhex("0101008a72ffffff")                                     # PGN 130312: instance 1, source 0, 293.06 K
     ev["T"] = ("tcp", wire.ebyte_packet(wire.can_id(5, 130312, 1, 255), temp))
     ev["T_src7"] = ("tcp", wire.ebyte_packet(wire.can_id(5, 130312, 7, 255), temp))  # same payload, other source
+    ev["unmatched65285"] = ("tcp", wire.ebyte_packet(wire.can_id(6, 65285, 8, 255), bytes.fromhex("3b9f010203040506")))   # no definition matches: ignored
+    ev["lowrance65285"] = ("tcp", wire.ebyte_packet(wire.can_id(6, 65285, 8, 255), bytes.fromhex("8c8808fe7f555555")))    # lowranceTemperature
+    ev["unmatched126720_0"] = ("tcp", wire.ebyte_packet(wire.can_id(6, 126208, 8, 255), bytes.fromhex("40030902010203")))  # 126208: fast, no fallback, function code 9 matches nothing
     ev["trunc0"] = ("tcp", wire.ebyte_packet(ident, b""))
     ev["trunc1"] = ("tcp", wire.ebyte_packet(ident, b"\x00"))            # first frame of counter 0 without its length byte
     ev["trunc1b"] = ("tcp", wire.ebyte_packet(ident, b"\x21"))           # frame 1 of counter 1 without data
@@ -139,7 +142,7 @@ def run_bfs(max_states):
         fresh[pname] = [feed(d, e, a) for e, a in seq]
     enc = NMEA2000Encoder()
     enc_msg = clientkit.gnss_message()
-    STATELESS = ("A", "T", "T_src7", "unk", "oor")
+    STATELESS = ("A", "T", "T_src7", "unk", "oor", "lowrance65285", "unmatched65285")
     base_plain = {n: feed(NMEA2000Decoder(), *evs[n]) for n in STATELESS}
     base_pref = {n: feed(NMEA2000Decoder(preferred_units={PQ.TEMPERATURE: "C", PQ.ANGLE: "deg"}), *evs[n]) for n in STATELESS}
     fp0 = class_fingerprint()
